@@ -1,4 +1,4 @@
-\* trace validation: 4 objects (2 at the start) on 5 positions, 2 parameters x {unset,1,2,3}, cycles / nodes <= 99, 4 labels, <= 40 snapshots
+\* trace validation: 4 objects (2 at the start) on 5 positions, 2 parameters x {unset,1,2,3}, cycles / nodes <= 99, 7 labels (some with ' ', '-', '.'), <= 40 snapshots
 CONSTANTS NObj = 4  NInit = 2  NLoc = 5  NPar = 2  NVal = 3  MaxC = 99  MaxN = 99  MaxSnaps = 40  MaxLevel = 999
 CONSTANT Labels <- TraceLabels
 SPECIFICATION TSpec
